@@ -4,15 +4,17 @@ Import ListNotations.
 Require Import Model.C14_Finder Proofs.C14_FinderProofs Gen.C14GenLine.
 Local Open Scope Q_scope.
 
-Lemma gen_line_finder_spec : forall (ps : list Q) (ixs pos : list nat),
-    incr ps -> length ixs = length ps -> NoDup ixs -> (2 <= length ps)%nat ->
-    (forall j, In j pos -> (S j < length ps)%nat) -> (forall j, (S j < length ps)%nat -> In j pos) -> NoDup pos ->
+Lemma gen_line_finder_spec : forall (lefts rights : list Q) (ixs : list nat),
+    incr lefts -> length rights = length lefts -> length ixs = length lefts ->
+    (forall k, (k < length lefts)%nat -> nth k lefts 0 <= nth k rights 0) ->
+    (forall k, (S k < length lefts)%nat -> nth k rights 0 <= nth (S k) lefts 0) ->
     forall xs,
-      ((forall x, In x xs -> nth 0 ps 0 <= x <= nth (length ps - 1) ps 0) ->
-         exists r, gen_line_finder ps ixs (maxt_of ixs pos) xs = Some r /\
-                   Forall2 (fun x c => nth (nth c pos 0%nat) ps 0 <= x <= nth (S (nth c pos 0%nat)) ps 0) xs r) /\
-      ((exists x, In x xs /\ (x < nth 0 ps 0 \/ nth (length ps - 1) ps 0 < x)) -> gen_line_finder ps ixs (maxt_of ixs pos) xs = None).
+      ((forall x, In x xs -> exists j, (j < length lefts)%nat /\ nth j lefts 0 <= x <= nth j rights 0) ->
+         exists r, gen_line_finder lefts rights ixs xs = Some r /\
+                   Forall2 (fun x c => exists k, (k < length lefts)%nat /\ nth_error ixs k = Some c /\ nth k lefts 0 <= x <= nth k rights 0) xs r) /\
+      ((exists x, In x xs /\ forall j, (j < length lefts)%nat -> ~ (nth j lefts 0 <= x <= nth j rights 0)) ->
+         gen_line_finder lefts rights ixs xs = None).
 Proof.
-  intros ps ixs pos H1 H2 H3 H4 H5 H6 H7 xs. unfold gen_line_finder.
-  exact (line_finder_spec ps ixs pos H1 H2 H3 H4 H5 H6 H7 xs).
+  intros lefts rights ixs H1 H2 H3 H4 H5 xs. unfold gen_line_finder.
+  exact (line_finder_spec lefts rights ixs H1 H2 H3 H4 H5 xs).
 Qed.
